@@ -99,6 +99,7 @@ def rResp : Option RespData → String
       joinWith ";" (parts.map (fun (i, u, s) => joinWith ":" [toString i, hs u, toString s])) ++ " " ++ rTasks src ++ ")"
   | some (.signProcess b src parts) => "signProc(" ++ hs b ++ " " ++ rTasks src ++ " " ++
       joinWith ";" (parts.map (fun (i, u, m) => joinWith ":" [toString i, hs u, rMapBytes m])) ++ ")"
+  | some (.reinitOps ts) => "reinitOps(" ++ joinWith ";" (ts.map hs) ++ ")"
 
 def rRes : Res → String
   | .ok => "ok" | .err => "err" | .panic => "panic"
